@@ -416,13 +416,14 @@ def gen_length(g):
         bo = "le" if entry != "vr:at" else "be"
         c = Case("bomb:present", "LB %s %s %d %d %d" % (entry, bo, phase(), MAXA, MAXA), MAXA + 8, expect="ok", note="array with exactly 2^26 bytes of content, all present")
         cases.append(c)
+    # (the content must be a valid sequence of elements, so that only the length check can refuse it: strings of length 0
+    # occupy 8 bytes each except the last (5), a{tt} entries 16 bytes)
     for entry in ("vr:ay", "up:ay", "ut:ay", "ut:&[u8]", "ut:Cow[u8]", "vr:at", "up:at", "ut:at", "ut:Cow[u64]", "vr:ab", "up:ab", "ut:ab",
-                  "vr:as", "up:as", "ut:as", "vr:a{yy}", "up:a{yy}", "ut:a{yy}"):
+                  "vr:as", "up:as", "ut:as", "vr:a{tt}", "up:a{tt}", "ut:a{tt}"):
         bo = r.choice(["le", "be"])
-        cases.append(Case("bomb:present", "LB %s %s %d %d %d" % (entry, bo, phase(), MAXA + 8, MAXA + 8), MAXA + 16, expect="err",
-                          note="array with 2^26+8 bytes of content, all present"))
-    for ty in bomb_types[:0]:
-        pass
+        over = MAXA + (5 if entry.endswith(":as") else 16 if entry.endswith("a{tt}") else 8)
+        cases.append(Case("bomb:present", "LB %s %s %d %d %d" % (entry, bo, phase(), over, over), over + 8, expect="err",
+                          note="array with 2^26+%d bytes of (valid) content, all present" % (over - MAXA)))
         for name in ("&[u8]", "Cow[u64]", "Cow[String]", "&str", "Vec<DS1>", "HashMap<String,Variant>"):
             data = u32("le", r.choice([MAXA + 1, (1 << 32) - 1])) + bytes(r.randrange(256) for _ in range(r.choice([0, 8, 32])))
             cases.append(Case("bomb:length", "UT %s le %d 0 0 %s" % (name, phase(), hx(data)), len(data), expect="err"))
@@ -518,6 +519,9 @@ def evaluate(ctx, cases, builds, drv, param_size, prop="C04"):
                 ctx.count("status:" + res.status)
             else:
                 ctx.evaluations += 1
+            if res.status == "skipped":
+                ctx.count("skipped_after_timeouts[%s]" % build)      # the supervisor stops a shard after 4 time-outs (each is a violation)
+                continue
             why, known = judge(ctx, c, res, build, param_size)
             if why and known and ctx.known("D21", "typed decoder on a self-referential user type: %s" % why[:150]):
                 seen_known = True
